@@ -134,6 +134,17 @@ def random_spectrum(rng, n, kind):
     elif kind == "indef":
         sig = [m * rng.choice([-1, 1]) for m in mag]
         sig[rng.randrange(n)] = -abs(sig[0])
+    elif kind == "traceless":      # eigenvalues summing to zero exactly (saddles, deviatoric tensors) or almost
+        half = [10 ** rng.uniform(-2, 1) for _ in range(max(1, n // 2))]
+        sig = [-h for h in half] + list(half)
+        if n % 2 == 1:
+            sig = ([0.0] + sig) if n > 1 else [0.0]
+        if n >= 3 and rng.random() < 0.4:
+            m = 10 ** rng.uniform(-1, 1)
+            sig = [-2.0 * m, m, m] + [0.0] * (n - 3)
+        if rng.random() < 0.3 and n >= 2:
+            sig[-1] = sig[-1] * (1 + 1e-5)
+        sig = sorted(sig)[:n] if len(sig) >= n else sorted(sig + [0.0] * (n - len(sig)))
     elif kind == "negdef":
         sig = [-m for m in mag]
     elif kind == "singular":
@@ -738,9 +749,9 @@ def tre_recipe(rng, ns, want):
     if want == "interior":
         fl = "spd"
     elif want in ("hard", "near_hard", "hard_exact", "b_zero"):
-        fl = rng.choice(["indef", "negdef", "singular", "repeated"])
+        fl = rng.choice(["indef", "negdef", "singular", "repeated", "traceless"])
     else:
-        fl = rng.choice(["spd", "indef", "negdef", "singular", "repeated"])
+        fl = rng.choice(["spd", "indef", "negdef", "singular", "repeated", "traceless"])
     if n == 1 and fl == "singular" and want != "zero_matrix" and rng.random() < 0.8:
         fl = "indef"
     sig = random_spectrum(rng, n, fl)
